@@ -21,7 +21,7 @@ LEVEL_TEXT = ('every schedule of the visible operations of the concurrent proces
               'put of every history the old pairs must be byte-identical and exactly one new complete pair must hold the trashed entry')
 LEVEL_NOTE = ('visible = operations with an entry path in the shared zone (trash dir and its not-yet-existing ancestors); the independence of all other operations is checked by an audit over '
               'the recorded traces, a hit is a harness error; state hashing uses the observation history of each process (sound, finer than necessary)')
-RULE = ('(a) histories of length <= 4 (thorough 6) over {put file a from d1, put dir a from d2, put symlink a from d3} from 6 initial trash states (empty, orphan file payload, orphan dir payload, files/ relocated behind a symbolic link, a trash directory named as --trash-dir LINK/../T with look-alikes where a lexical collapse would point, '
+RULE = ('(a) histories of length <= 4 (thorough 6) over {put file a from d1, put dir a from d2, put symlink a from d3} from 6 initial trash states (empty, orphan file payload, orphan dir payload, files/ relocated behind a symbolic link, an info file at the first name and a payload directory at the next, one run with same-named arguments on two volumes (all orders, cold / warm), two same-named arguments after 100 taken names, a trash directory named as --trash-dir LINK/../T with look-alikes where a lexical collapse would point, '
         'orphan info, both at a_1); names of 244-255 bytes trashed three times (truncation branch); 100 pre-existing entries + 3 puts x all random answer sequences of length 4 over {existing pair, orphan payload, orphan info, fresh}; (b) concurrent harnesses: '
         '2 puts warm, 2 puts cold (first use, the makedirs race), file+dir mix warm, 3 puts warm (thorough: unbounded; quick: preemption bound 2), 2 puts into .Trash-uid cold; distinct = terminal outcome classes per harness')
 B = '/home/u'
@@ -163,7 +163,7 @@ def replay_case(case):
 
 # =============================================================================================== (a) E2
 SEQ_ACTIONS = ['file', 'tree', 'ldang']
-INITS = ['empty', 'orphan-file', 'orphan-dir', 'orphan-info', 'both-at-a_1', 'files-symlinked', 'td-dotdot']
+INITS = ['empty', 'orphan-file', 'orphan-dir', 'orphan-info', 'both-at-a_1', 'info-a+orphan-a_1', 'files-symlinked', 'td-dotdot']
 STORE = '/home/u/.local/share/store'
 
 
@@ -181,6 +181,10 @@ def seq_world(init):
     elif init == 'both-at-a_1':
         W.file(TD + '/files/a_1', 'orphan payload at a_1\n')
         W.file(TD + '/info/a_2.trashinfo', '[Trash Info]\nPath=/elsewhere/a\nDeletionDate=2018-01-01T00:00:00\n')
+    elif init == 'info-a+orphan-a_1':
+        # the first free-looking name (no payload a) is taken by an info file, the next one (no info a_1) by a payload DIRECTORY
+        W.file(TD + '/info/a.trashinfo', '[Trash Info]\nPath=/elsewhere/a\nDeletionDate=2018-01-01T00:00:00\n')
+        W.dir(TD + '/files/a_1').file(TD + '/files/a_1/keep', 'orphan dir payload at a_1\n')
     elif init == 'td-dotdot':
         # every put names its trash directory as --trash-dir lk/../T: lk -> B/real/sub, so the kernel means B/real/T; a lexical collapse means
         # <cwd>/T, a look-alike that already holds an entry called a
@@ -235,7 +239,36 @@ def put_step(sb, kind_i, k, n, randints=None, name='a', tdopt=()):
     return None, world.canon_hash(after)
 
 
+def two_volumes_case(c):
+    """ONE trash-put run with same-named arguments living on two volumes (and a third on the first volume again): every one gets its own pair in its own trash dir"""
+    W = scen.base_world(mounts=['/', '/mnt/v1'], cwd=B)
+    ents = [B + '/s0/a', '/mnt/v1/p/a', B + '/s1/a']
+    order = [ents[i] for i in c['order']]
+    for i, e in enumerate(ents):
+        scen.add_entry(W, e, c['kinds'][i], tag=' #%d' % i)
+    if c.get('warm'):
+        scen.add_trashed(W, TD, 'a', B + '/old/a', '2018-01-01T00:00:00', tag='old')
+        scen.add_trashed(W, '/mnt/v1/.Trash-0', 'a', 'old/a', '2018-01-01T00:00:00', tag='old v1')
+    with cell.Sandbox(W.spec()) as sb:
+        before = sb.snapshot()
+        r = sb.run(['trash-put'] + order, cwd=B, env={'HOME': B}, now='2024-05-06T07:00:00')
+        after = sb.snapshot()
+    states = [scen.classify_put(before, after, e, others=[x for x in ents if x != e]) for e in ents]
+    detail = {'order': order, 'exit': r.exit, 'err': r.err[-300:], 'states': [x['state'] for x in states], 'why': [x['why'] for x in states]}
+    changed = [p for p in before if ('/files/' in p or '/info/' in p) and p.split('/files/')[0].split('/info/')[0] in (TD, '/mnt/v1/.Trash-0') and before[p] != after.get(p) and before[p][0] != 'd']
+    if r.exit != 0 or any(x['state'] != 'TRASHED' for x in states):
+        return {'verdict': 'viol', 'sig': 'C04|one-run-two-volumes|not-every-argument-owns-a-clean-pair', 'klass': 'seq-not-trashed', 'detail': detail, 'states': [], 'execs': 1}
+    if changed:
+        return {'verdict': 'viol', 'sig': 'C04|one-run-two-volumes|changed-an-existing-trash-entry', 'klass': 'seq-old-changed', 'detail': dict(detail, changed=changed[:5]), 'states': [], 'execs': 1}
+    tds = sorted(x['pair'][0] for x in states)
+    if tds != sorted([TD, TD, '/mnt/v1/.Trash-0']):
+        return {'verdict': 'viol', 'sig': 'C04|one-run-two-volumes|pair-in-the-wrong-trash-dir', 'klass': 'seq-wrong-dir', 'detail': dict(detail, tds=tds), 'states': [], 'execs': 1}
+    return {'verdict': 'ok', 'klass': 'two-volumes-one-run:three-clean-pairs', 'states': [world.canon_hash(after)], 'execs': 1}
+
+
 def seq_case(c):
+    if c.get('two_volumes'):
+        return two_volumes_case(c)
     with cell.Sandbox(seq_world(c['init']).spec()) as sb:
         states = []
         if c.get('hundred'):
@@ -272,6 +305,19 @@ def seq_case(c):
             m = {'pair': 1111, 'payload': 2222, 'info': 3333}
             rnd = [m.get(a, None) for a in c['answers']]
             rnd = [v if v is not None else 5000 + i for i, v in enumerate(rnd)]
+        if c.get('two_args'):
+            W2 = world.World()
+            W2.nodes, W2.order = {}, []
+            W2.file(B + '/s0/a', 'first a\n').file(B + '/s1/a', 'second a\n')
+            world.build(sb.root, [W2.nodes[p_] for p_ in W2.order if p_.endswith('/a')])
+            before = sb.snapshot()
+            r = sb.run(['trash-put', 's0/a', 's1/a'], cwd=B, env={'HOME': B}, now='2024-05-06T07:00:00', plan={'randints': rnd})
+            after = sb.snapshot()
+            st = [scen.classify_put(before, after, B + '/s%d/a' % i, others=[B + '/s%d/a' % (1 - i)])['state'] for i in (0, 1)]
+            if r.exit != 0 or st != ['TRASHED', 'TRASHED']:
+                return {'verdict': 'viol', 'sig': 'C04|sequential-put-not-a-clean-new-pair|two-arguments-after-100-names', 'klass': 'seq-not-trashed',
+                        'detail': {'exit': r.exit, 'err': r.err[-300:], 'states': st}, 'states': [], 'execs': 1}
+            return {'verdict': 'ok', 'klass': 'two-arguments-after-100-names', 'states': [world.canon_hash(after)], 'execs': 1}
         for n, ai in enumerate(c['hist']):
             v, h = put_step(sb, ai, SEQ_ACTIONS[ai], n, randints=rnd, name=(c['names'][n] if c.get('names') else c.get('name', 'a')),
                             tdopt=(['--trash-dir', 'lk/../T'] if c['init'] == 'td-dotdot' else ()))
@@ -308,9 +354,16 @@ def seq_cases(tier):
             for nm in ('...', '..a', '.a.'):
                 out.append({'init': 'empty', 'hist': [k1, k2], 'names': [nm, nm]})
                 out.append({'init': 'empty', 'hist': [k1, k2], 'names': [nm, nm], 'pre_orphan': nm})
+    for order in itertools.permutations(range(3)):
+        for kinds in (['file', 'file', 'file'], ['tree', 'file', 'tree'], ['file', 'tree', 'ldang']):
+            for warm in (0, 1):
+                out.append({'init': 'two-volumes', 'two_volumes': True, 'order': list(order), 'kinds': kinds, 'warm': warm, 'hist': [0]})
     for ans in itertools.product(['pair', 'payload', 'info', 'fresh'], repeat=4):
         out.append({'init': 'empty', 'hist': [0], 'hundred': True, 'answers': list(ans)})
         out.append({'init': 'empty', 'hist': [1], 'hundred': True, 'answers': list(ans)})
+    # 100 taken names and TWO same-named arguments in one run: the second one needs a random suffix of its own
+    for ans in (['fresh', 'fresh', 'fresh', 'fresh'], ['pair', 'fresh', 'payload', 'fresh']):
+        out.append({'init': 'empty', 'hist': [0], 'hundred': True, 'answers': ans, 'two_args': True})
     return out
 
 
